@@ -356,11 +356,36 @@ def rw_R14(rf, a, b):
     return out
 
 
-REWRITES = {"R1": rw_R1, "R3": rw_R3, "R4": rw_R4, "R5": rw_R5, "R10": rw_R10, "R13": rw_R13, "R14": rw_R14}
+def rw_R2(rf, a, b):
+    """Box<dyn FnMut() + Send> -> VerifTask   (the pool payload is never inspected)"""
+    toks, sg, out = rf.toks, _sig(rf.toks, a, b), []
+    words = ["Box", "<", "dyn", "FnMut", "(", ")", "+", "Send", ">"]
+    for k, i in enumerate(sg):
+        if _seq_at(toks, sg, k, words):
+            out.append((Edit(i, sg[k + len(words) - 1] + 1, "VerifTask", ("gen", "R2")), "R2 %s:%d Box<dyn FnMut() + Send> -> VerifTask" % (rf.rel, toks[i].line)))
+    return out
+
+
+def rw_R7(rf, a, b):
+    """<place>.load(ord) -> verif_protected_load(&<place>, ord)   (atomic counters written only under the lock)"""
+    toks, sg, out = rf.toks, _sig(rf.toks, a, b), []
+    for k, i in enumerate(sg):
+        if toks[i].text == "load" and toks[sg[k - 1]].text == "." and toks[sg[k + 1]].text == "(":
+            j = k - 2
+            while j >= 0 and ((toks[sg[j]].kind == "ident" and toks[sg[j]].text not in KEYWORDS) or toks[sg[j]].text == "."):
+                j -= 1
+            s0 = sg[j + 1]
+            out.append((Edit(s0, s0, "verif_protected_load(&", ("gen", "R7")), "R7 %s:%d <atomic>.load(ord) -> verif_protected_load(&<atomic>, ord)" % (rf.rel, toks[i].line)))
+            out.append((Edit(sg[k - 1], sg[k + 1] + 1, ", ", ("gen", "R7")), None))
+    return out
+
+
+REWRITES = {"R2": rw_R2, "R7": rw_R7, "R1": rw_R1, "R3": rw_R3, "R4": rw_R4, "R5": rw_R5, "R10": rw_R10, "R13": rw_R13, "R14": rw_R14}
 
 
 # --------------------------------------------------------------------------------------------
 LOOP_KW = ("loop", "while", "for")
+KEYWORDS = {"if", "while", "match", "return", "let", "in", "else", "for", "loop", "mut", "ref", "move", "as", "break", "continue"}
 
 
 def find_loops(toks, a, b):
@@ -530,6 +555,9 @@ class Unit:
             if name in no:
                 continue
             for e, desc in f(rf, a, b):
+                # an earlier rewrite (R2 before R1) may already have replaced this range
+                if any(o.a < max(e.b, e.a + 1) and e.a < o.b for o in edits):
+                    continue
                 edits.append(e)
                 if desc:
                     self.rewrites.append(desc)
